@@ -170,42 +170,43 @@ def _fix_variable_names(
 def _fix_undefined_variables(source: str, variables: Collection[str]) -> str:
     variables = set(variables)
 
-    lines = source.splitlines()
-    change_count = -len(lines)
-    lineno = next(
-        i
-        for i, line in enumerate(lines)
-        if not line.startswith("#")
-        and not line.startswith("'''")
-        and not line.startswith('"""')
-        and not line.startswith("from __future__ import")
-    )
+    fixes = []
     for package, package_variables in constants.ASSUMED_SOURCES.items():
         overlap = variables.intersection(package_variables)
         if overlap:
-            fix = f"from {package} import " + ", ".join(sorted(overlap))
-            logger.debug("Inserting '{fix}' at line {lineno}", fix=fix, lineno=lineno)
-            lines.insert(lineno, fix)
+            fixes.append(f"from {package} import " + ", ".join(sorted(overlap)))
 
-    for package in (constants.ASSUMED_PACKAGES | constants.PYTHON_311_STDLIB) & variables:
-        fix = f"import {package}"
-        logger.debug("Inserting '{fix}' at line {lineno}", fix=fix, lineno=lineno)
-        lines.insert(lineno, fix)
+    for package in sorted((constants.ASSUMED_PACKAGES | constants.PYTHON_311_STDLIB) & variables):
+        fixes.append(f"import {package}")
 
-    for alias in constants.PACKAGE_ALIASES.keys() & variables:
+    for alias in sorted(constants.PACKAGE_ALIASES.keys() & variables):
         package = constants.PACKAGE_ALIASES[alias]
-        fix = f"import {package} as {alias}"
-        logger.debug("Inserting '{fix}' at line {lineno}", fix=fix, lineno=lineno)
-        lines.insert(lineno, fix)
+        fixes.append(f"import {package} as {alias}")
 
-    change_count += len(lines)
-
-    assert change_count >= 0
-
-    if change_count == 0:
+    if not fixes:
         return source
 
-    return "\n".join(lines) + "\n"
+    # The imports go before the first statement that is not the docstring of the module or a
+    # __future__ import. All other lines are kept as they are, with their line endings.
+    root = core.parse(source)
+    lines = source.splitlines(keepends=True)
+    lineno = len(lines)
+    for i, node in enumerate(root.body):
+        if i == 0 and core.match_template(node, ast.Expr(value=ast.Constant(value=str))):
+            continue
+        if core.match_template(node, ast.ImportFrom(module="__future__")):
+            continue
+        lineno = min(x.lineno for x in core.walk(node, ast.AST(lineno=int))) - 1
+        break
+
+    newline = "\r\n" if lines and lines[0].endswith("\r\n") else "\n"
+    if lineno == len(lines) and lines and not lines[-1].endswith(("\n", "\r")):
+        lines[-1] += newline
+    for fix in fixes:
+        logger.debug("Inserting '{fix}' at line {lineno}", fix=fix, lineno=lineno)
+        lines.insert(lineno, fix + newline)
+
+    return "".join(lines)
 
 
 def add_missing_imports(source: str) -> str:
